@@ -1,4 +1,5 @@
 import SJ.Proofs.Machine
+import SJ.Proofs.StreamPrefix
 /-!
 # C10 — truncated input is always reported as an EOF error
 
@@ -151,5 +152,73 @@ example : (∃ v', parseTop envAp ([0x5b, 0x31, 0x65, 0x34, 0x30, 0x30, 0x5d].ta
     (∃ c, parseTop envAp ([0x5b, 0x31, 0x65, 0x34, 0x30, 0x30, 0x5d].take 6)
         = .err c ([0x5b, 0x31, 0x65, 0x34, 0x30, 0x30, 0x5d].take 6 : Bytes).length ∧ classify c = .eof) :=
   c10_prefix_value_ap envAp rfl rfl _ 6 _ rfl
+
+/-! ## stream iteration over truncated input
+
+`Model.Stream.history env n (start bs)`: the `(item, byte_offset())` pairs of `n` calls of `next()`.
+What a caller who "waits for more data" relies on: as long as the stream over the whole input yields values,
+the stream over ANY prefix of the input yields the same values with the same offsets, until the one call
+that runs into the cut — and that call reports nothing (`None`: only whitespace was left), a value that
+ends exactly at the cut (a number literal cut short is a shorter number: `12 3` cut after `1` yields `1`,
+as it must — the end of input delimits a bare scalar), or an error located at the end of the prefix that
+is `Eof`-classified (for `Value` items also the inherent `NumberOutOfRange` of `c10_prefix_value_partial`:
+the prefix ends in a complete out-of-range literal). Never a Syntax error of another kind, never a value or
+an offset that the full input does not produce at an earlier item. -/
+
+open SJ.Model.Stream SJ.Proofs.StreamPrefix in
+/-- **C10 (streams).** `bs.take k` against `bs`, for every configuration, source, item type, `k` and `n`. -/
+theorem c10_stream_prefix_partial (env : Env) (bs : Bytes) (k n : Nat)
+    (hok : ∀ x ∈ history env n (start bs), ∃ v, x.1 = .ok v) :
+    history env n (start (bs.take k)) = history env n (start bs) ∨
+    ∃ j, j < n ∧ history env j (start (bs.take k)) = (history env n (start bs)).take j ∧
+      ∃ x, (history env (j + 1) (start (bs.take k)))[j]? = some x ∧
+        (x = (.none, (bs.take k).length) ∨ (∃ v', x = (.ok v', (bs.take k).length)) ∨
+         ∃ c, x.1 = .err c (bs.take k).length ∧
+           (classify c = .eof ∨ (env.tgt = .value ∧ c = .NumberOutOfRange))) := by
+  have hcut : CutOf (bs.drop k) (start bs) (start (bs.take k)) :=
+    ⟨by simp [start], rfl, rfl, rfl, rfl⟩
+  rcases history_prefix env (bs.drop k) n (start bs) (start (bs.take k)) hcut hok with h | ⟨j, hj, h1, h2⟩
+  · exact .inl h
+  · refine .inr ⟨j, hj, h1, ?_⟩
+    rw [history_succ_last]
+    have hlen : (history env j (start (bs.take k))).length = j := history_length env j _
+    refine ⟨((next env (stateAfter env j (start (bs.take k)))).1, (next env (stateAfter env j (start (bs.take k)))).2.offset),
+      by rw [List.getElem?_append_right (by omega)]; simp [hlen], ?_⟩
+    change AtEndItem env (0 + (bs.take k).length) _ at h2
+    rw [Nat.zero_add] at h2
+    rcases h2 with ⟨h3, h4⟩ | ⟨v', h3, h4, _⟩ | ⟨c, h3, h4⟩
+    · left; rw [← h3, ← h4]
+    · right; left; exact ⟨v', by rw [← h3, ← h4]⟩
+    · right; right; exact ⟨c, h3, h4⟩
+
+open SJ.Model.Stream SJ.Proofs.StreamPrefix in
+/-- **C10 (streams of skipped items)**: no exception — `None`, a value ending at the cut, or `Eof` at the cut -/
+theorem c10_stream_prefix_ignored (env : Env) (henv : env.tgt = .ignored) (bs : Bytes) (k n : Nat)
+    (hok : ∀ x ∈ history env n (start bs), ∃ v, x.1 = .ok v) :
+    history env n (start (bs.take k)) = history env n (start bs) ∨
+    ∃ j, j < n ∧ history env j (start (bs.take k)) = (history env n (start bs)).take j ∧
+      ∃ x, (history env (j + 1) (start (bs.take k)))[j]? = some x ∧
+        (x = (.none, (bs.take k).length) ∨ (∃ v', x = (.ok v', (bs.take k).length)) ∨
+         ∃ c, x.1 = .err c (bs.take k).length ∧ classify c = .eof) := by
+  rcases c10_stream_prefix_partial env bs k n hok with h | ⟨j, hj, h1, x, hx, h2⟩
+  · exact .inl h
+  · refine .inr ⟨j, hj, h1, x, hx, ?_⟩
+    rcases h2 with h2 | h2 | ⟨c, h3, h4⟩
+    · exact .inl h2
+    · exact .inr (.inl h2)
+    · refine .inr (.inr ⟨c, h3, ?_⟩)
+      rcases h4 with h4 | ⟨h4, _⟩
+      · exact h4
+      · rw [henv] at h4; cases h4
+
+/-- non-vacuity: `12 [3]` yields `12` and `[3]`; cut after `1` the stream yields `1` (a value ending at the
+    cut); cut after `12 [` it yields `12`, then `EofWhileParsingList` at index 4 with `byte_offset()` 3 -/
+def exS : Bytes := [0x31, 0x32, 0x20, 0x5b, 0x33, 0x5d]
+open SJ.Model.Stream in
+example : history envV 2 (start exS) = [(.ok (.num (.pos 12)), 2), (.ok (.arr [.num (.pos 3)]), 6)] := rfl
+open SJ.Model.Stream in
+example : history envV 2 (start (exS.take 1)) = [(.ok (.num (.pos 1)), 1), (.none, 1)] := rfl
+open SJ.Model.Stream in
+example : history envV 2 (start (exS.take 4)) = [(.ok (.num (.pos 12)), 2), (.err .EofWhileParsingList 4, 3)] := rfl
 
 end SJ.Props.C10
